@@ -6,12 +6,12 @@ import gen as G
 import tmh
 
 PROP = 'C18'
-LEAN_MODULES = ['BR.Props.C18', 'BR.Props.C18Twist']
+LEAN_MODULES = ['BR.Props.C18', 'BR.Props.C18Twist', 'BR.Props.C18Arc']
 THEOREMS = ['BR.C18.plane_contains_points', 'BR.C18.mirror_reflects', 'BR.C18.mirror_involution', 'BR.C18.interpMid_pos', 'BR.C18.interpMid_geodesic',
             'BR.C18.lookAt_keeps_pos', 'BR.C18.lookAt_proper', 'BR.C18.distance_metric', 'BR.C18.arcDistance_is_norm', 'BR.C18.closeLinearGap_advance',
             'BR.C18.ikPath_shape', 'BR.C18.ikPath_even', 'BR.C18.fibo_unit', 'BR.C18.unitSphere_unit', 'BR.C18.angleMod_mod_2pi',
             'BR.Rot.rod_add', 'BR.Rot.log3_generic_form',
-            'BR.C18T.twistToGoal_reaches']
+            'BR.C18T.twistToGoal_reaches', 'BR.C18A.rel_of_step', 'BR.C18A.closeArcGap_advance', 'BR.C18A.closeArcGap_at_goal']
 TIE = ('K: hand-written model lean/BR/Model/Helpers.lean of the fsr helpers; every run evaluates the Float instance (compiled driver) and the real functions on the same '
        'inputs (frames not through the world origin) and compares; each defining relation is also evaluated directly on the real functions.')
 TRUSTED = ['Lean 4.33 kernel + Mathlib v4.33 (axioms: propext, Classical.choice, Quot.sound)', 'harness/c18.py generators and tolerances',
@@ -19,7 +19,7 @@ TRUSTED = ['Lean 4.33 kernel + Mathlib v4.33 (axioms: propext, Classical.choice,
 ASSUMPTIONS = ['|p| <= 10, rotation angle <= pi-1e-3']
 RULE = ('poses from pose classes with positions up to 10 (mirror planes / reference frames away from the origin), non-collinear point triples, deltas in (0,1], step counts 2..200, '
         'point counts 1..2000, angles in [-50,50]; distinct = distinct (function, input); non-trivial = rotation part non-zero or position non-zero')
-SAMPLED = ['closeArcGap advances by delta in arc distance (implementation only)',
+SAMPLED = ['closeArcGap inside the 1e-6 cut-off band of the step rotation (outside it, advancing by exactly delta in arc distance is a theorem)',
            'chain / numerical Jacobians equal the analytic ones (implementation only, 1e-5)', 'rotationFromVector (optimiser, 1e-5)']
 
 
@@ -144,6 +144,10 @@ def run(res, tier, seed, driver_ok):
         advarc = math.sqrt(np.linalg.norm(stepT[:3, 3]) ** 2 + angle_of(stepT[:3, :3]) ** 2)
         if abs(advarc - delta) > 1e-6:
             bad('closeArcGap', 'arc gap step does not advance by delta in arc distance', {'a': list(a), 'b': list(b), 'delta': delta}, advarc)
+        if angle_of(g2.gTM()[:3, :3]) < math.pi - 1e-3:
+            own = float(np.asarray(fsr.arcDistance(A, g2)).reshape(-1)[0])
+            if abs(own - delta) > 1e-6:
+                bad('closeArcGap', 'arcDistance(origin, closeArcGap(origin, goal, delta)) is not delta', {'a': list(a), 'b': list(b), 'delta': delta}, own)
         # ---- straight path
         steps = rnd.choice([2, 3, 5, 17, rnd.randint(2, 200)])
         path = fsr.IKPath(A, B, steps)
